@@ -136,6 +136,11 @@ def _sequence(case, ctx):
             for o in drv.dispatcher.raw_ready_operations():
                 for mm in o.machines:
                     drv.dispatcher.start_time(o, mm)
+            if r & 1:
+                # a look-ahead also asks for operations that are not ready yet
+                for o in drv.dispatcher.unscheduled_operations():
+                    for mm in o.machines:
+                        drv.dispatcher.start_time(o, mm)
         if r & 8:
             # a request the dispatcher has to refuse (an operation that is not
             # the next one of its job), sent the way ready ones are sent;
